@@ -6,7 +6,7 @@
    grants channel 1 to user 0; load; purge document 0; the next load still returns channel 1 although no
    document grants it.  Reproduced on the real code by the harness (monitor access_spec, signature
    purge-stale-grant). *)
-From SG Require Import Base.Prelude C03.Access C03.AccessSpec.
+From SG Require Import Base.Prelude C03.Access C03.AccessSpec C03.Effective C03.AccessX.
 Open Scope N_scope.
 
 Definition purge_witness : list op :=
@@ -31,3 +31,43 @@ Proof.
   - rewrite Hd in Ht. destruct Ht.
 Qed.
 Print Assumptions C03_access_spec_with_purge_refuted.
+
+(* ---------- the access API does not agree with ONE effective set in two corners (Effective.v is faithful) ---------- *)
+
+(* (a) AuthorizeAnyCollectionChannel of the EMPTY channel set (a document that is in no channel) in the DEFAULT
+   collection ignores a "*" held through a role: auth/role.go authorizeAnyChannel tests princ.Channels() (the user's
+   own channels) where the named-collection code also asks every role.  Witness: role 0 has admin channel "*", user 0
+   has admin role 0: "*" is in the effective set, CanSeeCollectionChannel is true for every channel, a named collection
+   authorizes the empty set, the default collection does not.  Reproduced on the real code by the harness (monitor
+   effective_set, signature authorize-any-empty-set-ignores-role-star).  Minimal patch: in authorizeAnyChannel replace
+   `princ.Channels().Contains(ch.UserStarChannel)` by `princ.canSeeChannel(ch.UserStarChannel)`. *)
+Definition role_star_witness : list xop := [XSetRole 0 (Some [star]) 1; XSetUser 0 None (Some [0]) 2; XLoadUser 0].
+
+Theorem C03_authorize_any_agrees_refuted :
+  exists def ops u,
+    xwf (xinit def) ops = true /\
+    let v := view_of (xrun (xinit def) ops) u in
+    In star (effective_set v) /\ can_see v 1 = true /\
+    authorize_any false v [] = true /\ authorize_any true v [] = false.
+Proof.
+  exists true, role_star_witness, 0. split; [vm_compute; reflexivity|]. cbv zeta.
+  split; [vm_compute; right; left; reflexivity|]. repeat split; vm_compute; reflexivity.
+Qed.
+Print Assumptions C03_authorize_any_agrees_refuted.
+
+(* (b) the since value FilterToAvailableCollectionChannels reports for a channel held through a role is the ROLE's since
+   value (canSeeChannelSince), not max(role's since value, sequence at which the user got the role) as in
+   InheritedCollectionChannels: a channel filter on the changes feed sees the channel as granted earlier than the
+   all-channels feed does.  Witness: role 0 gets channel 1 at sequence 1, user 0 gets role 0 at sequence 4. *)
+Definition late_role_witness : list xop :=
+  [XSetRole 0 (Some [1]) 1; XSetUser 0 None None 2; XSetUser 1 None None 3; XSetUser 0 None (Some [0]) 4; XLoadUser 0].
+
+Theorem C03_filter_since_is_not_inherited_since :
+  exists def ops u c,
+    xwf (xinit def) ops = true /\
+    let v := view_of (xrun (xinit def) ops) u in
+    since (fst (filter_available v [c])) c = 1 /\ since (inherited v) c = 4.
+Proof.
+  exists true, late_role_witness, 0, 1. split; [vm_compute; reflexivity|]. cbv zeta. split; vm_compute; reflexivity.
+Qed.
+Print Assumptions C03_filter_since_is_not_inherited_since.
